@@ -699,8 +699,26 @@ pub(crate) fn parse_time_part(
 /// Parses the month of a date based on https://www.unicode.org/reports/tr35/tr35-dates.html#dfst-month
 fn parse_month(length: usize, string: &mut String) -> Result<Option<ParsedPart>, AstrolabeError> {
     Ok(match length {
-        1 | 2 => {
-            let month = pick_part::<u32>(length, string, "month")?;
+        1 => match string.chars().nth(1) {
+            Some(char) if char.is_ascii_digit() => {
+                let month = pick_part::<u32>(2, string, "month")?;
+
+                Some(ParsedPart {
+                    value: month as i64,
+                    unit: ParseUnit::Month,
+                })
+            }
+            _ => {
+                let month = pick_part::<u32>(1, string, "month")?;
+
+                Some(ParsedPart {
+                    value: month as i64,
+                    unit: ParseUnit::Month,
+                })
+            }
+        },
+        2 => {
+            let month = pick_part::<u32>(2, string, "month")?;
 
             Some(ParsedPart {
                 value: month as i64,
